@@ -34,7 +34,7 @@ def plan(tier):
             "required_monitors": ["membership", "row-alignment", "input-unchanged", "meta-carried", "exact-boundary",
                                   "loader-dataset"],
             "required_tags": ["empty-region", "full-region", "group-without-positions", "group-ignored", "sphere", "box",
-                              "no-mesh-group"]}
+                              "no-mesh-group", "part-rows-equal-mesh-rows"]}
 
 
 def cases(ctx):
@@ -59,6 +59,11 @@ def build_dataset(osy, rng, ndim=3, nmesh=None):
     layout = []
     no_mesh = nmesh_given is None and rng.random() < 0.12      # a dataset of particles/sinks only: nothing to fall back on
     npart = int(rng.integers(0, 200))
+    if not no_mesh and nmesh and rng.random() < 0.3:
+        npart = nmesh        # as many particles as cells: the particles' own positions still decide
+        same_rows = True
+    else:
+        same_rows = False
     # (without a mesh group the position-less group has as many rows as the particle group: still nothing to fall back on)
     for gname, n in (("mesh", nmesh), ("part", npart), ("sink", int(rng.integers(0, 6))),
                      ("extra", npart if no_mesh else nmesh), ("other", nmesh + 3)):
@@ -92,6 +97,8 @@ def build_dataset(osy, rng, ndim=3, nmesh=None):
     ds.meta["time"] = 3.5 * osy.units("s")
     ds.meta["ndim"] = ndim
     ds.meta["marker"] = [1, 2, 3]
+    if same_rows and "part" in info and "mesh" in info:
+        layout.append(("part-has-as-many-rows-as-mesh", nmesh, ""))
     return ds, info, layout
 
 
@@ -271,6 +278,8 @@ def run_case(case, ctx, res):
                                             or reg["size_unit"] != (info.get("mesh") or next(iter(info.values()), {"unit": None}))["unit"])
     if "mesh" not in info:
         res.tag("no-mesh-group")
+    if any(x[0] == "part-has-as-many-rows-as-mesh" for x in layout):
+        res.tag("part-rows-equal-mesh-rows")
     res.digest_src = {"layout": layout, "reg": {k: (v.tolist() if isinstance(v, np.ndarray) else v) for k, v in reg.items()}}
     res.sample = {"groups": layout, "region": {"kind": rk, "mode": reg["mode"], "origin_unit": reg["origin_unit"],
                                               "size_unit": reg["size_unit"]}}
